@@ -550,6 +550,49 @@ def F28():
 
 
 @case
+def F29():
+    # no target directory given: a directory member named './/<abs>' is validated as cwd/<abs> and created as /<abs>
+    d = tmp(); p = os.path.join(d, "a.7z")
+    outside = os.path.join(d, "outside", "made_by_member")
+    os.mkdir(os.path.join(d, "srcdir")); os.mkdir(os.path.join(d, "cwd"))
+    with py7zr.SevenZipFile(p, "w") as z:
+        z.write(os.path.join(d, "srcdir"), "placeholder")
+        z.header.files_info.files[-1]["filename"] = ".//" + outside.lstrip("/")
+    old = os.getcwd(); os.chdir(os.path.join(d, "cwd"))
+    try:
+        try:
+            with py7zr.SevenZipFile(p) as z:
+                z.extractall()
+        except py7zr.exceptions.Bad7zFile:
+            pass
+    finally:
+        os.chdir(old)
+    return f"extractall() without path created {outside} outside the current directory" if os.path.exists(outside) else None
+
+
+@case
+def F30():
+    # a folder without substreams (append of a directory only) breaks extraction and the next append
+    d = tmp(); p = os.path.join(d, "a.7z")
+    mk(p, [("one.txt", b"hello" * 20)])
+    os.mkdir(os.path.join(d, "emptydir"))
+    with py7zr.SevenZipFile(p, "a") as z:
+        z.write(os.path.join(d, "emptydir"), "emptydir")
+    try:
+        with py7zr.SevenZipFile(p) as z:
+            z.extractall(os.path.join(d, "out"))
+    except Exception as e:
+        return f"extractall() of [1, 0]-substream archive raises {type(e).__name__}: {e}"
+    with py7zr.SevenZipFile(p, "a") as z:
+        z.writestr(b"A" * 10, "a.txt"); z.writestr(b"B" * 33, "b.txt")
+    with py7zr.SevenZipFile(p) as z:
+        sizes = {f.filename: f.uncompressed for f in z.list()}
+        bad = z.testzip()
+    ok = sizes.get("a.txt") == 10 and sizes.get("b.txt") == 33 and bad is None
+    return None if ok else f"append after an empty folder: sizes {sizes}, testzip -> {bad}"
+
+
+@case
 def F14b():
     # progress events of worker PROCESSES never reach the reporter
     d = tmp(); p = os.path.join(d, "a.7z")
